@@ -425,6 +425,8 @@ func runC20(o *Out) {
 			}
 		}
 	}
+	// the same evaluations, and histories on one Path value, through the Coq model
+	c20ModelCases(o, accepted, paths)
 	// histories: one Path, a sequence of documents some of which fail; every
 	// answer must equal the answer of a fresh Path
 	hist := 300
